@@ -386,8 +386,10 @@ def rule_g(ctx):
 
 def rule_order(ctx):
     # per-stream FIFO on the wire: a terminal/control frame must not overtake fragments of its own stream
-    from .c05 import rule_a as c05a
+    from .c05 import rule_a as c05a, rule_b as c05b
     c05a(ctx)
+    # ... nor its own request: nothing but connect()'s SETUP is ever inserted at the head of the send queue
+    c05b(ctx)
 
 
 RULES = [('C09.a', rule_a), ('C09.b', rule_b), ('C09.c', rule_c), ('C09.d', rule_d), ('C09.e', rule_e),
